@@ -79,6 +79,8 @@ def dump_type(t, root: str) -> dict:
         'empty_sections': sum(1 for s in sections if len([f for f in s.fields_except_padding]) == 0),
         'source': os.path.basename(str(t.source_file_path)),
         'consts': dump_consts(sections),
+        # per section: the non-padding fields in declaration order as [name, type encoding]
+        'fields': [[[f.name, enc_type(f.data_type)] for f in sec.fields_except_padding] for sec in sections],
         'bool_array_names': [f.name for f in fields if f.name and isinstance(f.data_type, pydsdl.ArrayType)
                              and isinstance(f.data_type.element_type, pydsdl.BooleanType)],
         'delimited': [isinstance(s, pydsdl.DelimitedType) for s in sections],
